@@ -700,7 +700,11 @@ def geo_cases(draw, n_min=3, n_max=10):
 def res_cases(draw, n_min=3, n_max=9):
     g = draw(G.connected_graph(n_min, n_max))
     n = g["n"]
-    R = draw(G.link_attr(n, False, lo=1, hi=16, denom=4.0))
+    # a fifth of the cases: resistances that differ between the two
+    # orientations of a link (the admittance is documented as "possibly
+    # non-symmetric"; renumbering is a renaming whatever the values mean)
+    asym = draw(st.integers(0, 4)) == 0
+    R = draw(G.link_attr(n, asym, lo=1, hi=16, denom=4.0))
     return {"g": g, "R": R, "perm": draw(_perm(n)),
             "a": draw(st.integers(0, 63)), "b": draw(st.integers(0, 63))}
 
